@@ -9,9 +9,10 @@ import numpy as np
 import pandas as pd
 
 from harness.engine import coq_bad_cases, coq_list, nlist, pairs_nat
+from harness.timelimit import Hang, time_limit
 
 HEADER = ("From Coq Require Import PrimFloat List Arith Bool.\n"
-          "From SK Require Import Lib.Base Model.Generic Model.GenericF Check.GenericCheck.\n"
+          "From SK Require Import Lib.Base Model.Generic Model.GenericF Model.GenericAny Check.GenericCheck.\n"
           "Import ListNotations.\nOpen Scope float_scope.")
 
 
@@ -52,7 +53,8 @@ def _pick_threshold(rng, pos):
     """a threshold in the range of the (sorted, non-negative) scores: a score value itself (an exact tie), one just BELOW a score (the score exceeds it by one unit in the
     last place, or by a relative 3e-7: a comparison with a tolerance would miss it), half the maximum, zero"""
     v = pos[rng.choice([len(pos) // 2, (3 * len(pos)) // 4, len(pos) - 1])]
-    return float(rng.choice([0.0, v, pos[-1] * 0.5, float(np.nextafter(v, -np.inf)), v * (1.0 - 3e-7), float(np.nextafter(pos[-1], -np.inf))]))
+    return float(rng.choice([0.0, v, pos[-1] * 0.5, float(np.nextafter(v, -np.inf)), v * (1.0 - 3e-7), float(np.nextafter(pos[-1], -np.inf)),
+                             -1e-12, -0.5 * (abs(v) + 1.0)]))          # ... and NEGATIVE ones (a threshold tuned on noise-level data can be)
 
 
 def _agg(scorer, cuts):
@@ -139,7 +141,7 @@ def mw_float_stream(ctx, count):
         ctx.case({"float": "mw", "it": it, "n": n, "b": b, "score": name, "x0": float(Xn[0, 0])}, nontrivial=len(cpts) > 0,
                  sample={"stream": "binary64-table MovingWindow", "score": name, "n": n, "bandwidth": b, "impl_changepoints": cpts})
         ctx.count("float_stream", "mw:" + name)
-    bad = coq_bad_cases(ctx.cid, HEADER, "fmw_case", "fmw_case_ok", terms, shard=60, tag="fmw")
+    bad = coq_bad_cases(ctx.cid, HEADER, "fmw_case", "fmw_any_case_ok", terms, shard=60, tag="fmw")
     _spec_all(ctx, metas, bad, lambda mt: _mw_spec(mt, mt["_row"], mt["_scores"]), "MovingWindow",
               lambda mt: f"MovingWindow({mt['score']}) on float data (n={mt['n']}, bandwidth={mt['bandwidth']}, p={mt['p']}, {mt['data']})")
     for i in bad[:20]:
@@ -178,7 +180,13 @@ def sbs_float_stream(ctx, count):
         pos = sorted(float(v) for v in tabl["score"] if v >= 0) or [0.0]
         thr = _pick_threshold(rng, pos)
         d.threshold_ = thr
-        cpts = [int(v) for v in d.predict(X)["ilocs"]]
+        try:
+            with time_limit(10):
+                cpts = [int(v) for v in d.predict(X)["ilocs"]]
+        except Hang as ex:
+            ctx.violation(f"SeededBinarySegmentation({name}) with threshold {thr!r} on float data (n={n}, m={m}): predict does not return ({ex})",
+                          {"detector": "SeededBinarySegmentation", "score": name, "n": n, "m": m, "threshold": thr, "X": Xn.tolist()}, {"what": "hang", "detector": "SeededBinarySegmentation"})
+            continue
         tabl = d.scores
         sc = mk().fit(Xn)
         rows = []
@@ -194,7 +202,7 @@ def sbs_float_stream(ctx, count):
         ctx.case({"float": "sbs", "it": it, "n": n, "m": m, "score": name, "x0": float(Xn[0, 0])}, nontrivial=len(cpts) > 0,
                  sample={"stream": "binary64-table SeededBinarySegmentation", "score": name, "n": n, "m": m, "n_intervals": len(ivs), "impl_changepoints": cpts})
         ctx.count("float_stream", "sbs:" + name)
-    bad = coq_bad_cases(ctx.cid, HEADER, "fsbs_case", "fsbs_case_ok", terms, shard=40, tag="fsbs")
+    bad = coq_bad_cases(ctx.cid, HEADER, "fsbs_case", "fsbs_any_case_ok", terms, shard=40, tag="fsbs")
     _spec_all(ctx, metas, bad, lambda mt: _sbs_spec(mt, mt["_rows"], mt["_argmax"], mt["_max"]), "SeededBinarySegmentation",
               lambda mt: f"SeededBinarySegmentation({mt['score']}) on float data (n={mt['n']}, m={mt['min_segment_length']}, p={mt['p']}, {mt['data']})")
     for i in bad[:20]:
@@ -237,7 +245,13 @@ def cbs_float_stream(ctx, count):
         pos = sorted(float(v) for v in tabl["score"] if v >= 0) or [0.0]
         thr = _pick_threshold(rng, pos)
         d.threshold_ = thr
-        y = d.predict(X)
+        try:
+            with time_limit(10):
+                y = d.predict(X)
+        except Hang as ex:
+            ctx.violation(f"CircularBinarySegmentation({name}) with threshold {thr!r} on float data (n={n}, m={m}): predict does not return ({ex})",
+                          {"detector": "CircularBinarySegmentation", "score": name, "n": n, "m": m, "threshold": thr, "X": Xn.tolist()}, {"what": "hang", "detector": "CircularBinarySegmentation"})
+            continue
         anoms = [(int(l), int(r)) for l, r in zip(y["ilocs"].array.left, y["ilocs"].array.right)]
         tabl = d.scores
         sc = mk().fit(Xn)
@@ -254,7 +268,7 @@ def cbs_float_stream(ctx, count):
         ctx.case({"float": "cbs", "it": it, "n": n, "m": m, "score": name, "x0": float(Xn[0, 0])}, nontrivial=len(anoms) > 0,
                  sample={"stream": "binary64-table CircularBinarySegmentation", "score": name, "n": n, "m": m, "n_intervals": len(ivs), "impl_anomalies": anoms})
         ctx.count("float_stream", "cbs:" + name)
-    bad = coq_bad_cases(ctx.cid, HEADER, "fcbs_case", "fcbs_case_ok", terms, shard=20, tag="fcbs")
+    bad = coq_bad_cases(ctx.cid, HEADER, "fcbs_case", "fcbs_any_case_ok", terms, shard=20, tag="fcbs")
     _spec_all(ctx, metas, bad, lambda mt: _cbs_spec(mt, mt["_rows"], mt["_inner"], mt["_max"]), "CircularBinarySegmentation",
               lambda mt: f"CircularBinarySegmentation({mt['score']}) on float data (n={mt['n']}, m={mt['min_segment_length']}, p={mt['p']}, {mt['data']})")
     for i in bad[:20]:
@@ -302,12 +316,13 @@ def _mw_spec(mt, row, scores):
         want = row[t] if b <= t <= n - b else 0.0
         if not _rel(float(scores[t]), want):
             return f"score[{t}] = {float(scores[t])!r} but the change score of ({t - b}, {t}, {t + b}) summed over columns is {want!r}"
-    want_cp, t = [], 0
+    want_cp, t = [], b            # runs are taken over the ADMISSIBLE positions b .. n - b only (the border entries are placeholders, not scores)
     sc = [float(v) for v in scores]
-    while t < n:
+    hi_ = n - b + 1
+    while t < hi_:
         if sc[t] > thr:
             e = t
-            while e < n and sc[e] > thr:
+            while e < hi_ and sc[e] > thr:
                 e += 1
             if e - t >= mdi:
                 want_cp.append(t + _argmax_first(sc[t:e]))
